@@ -32,11 +32,11 @@ def run_history(rng, nops, workdir):
     conn = mockrepo.fresh_with_namespace_provider() if rng.random() < 0.4 \
         else mockrepo.fresh()
     h = Hist()
+    gen = atomicops.Gen(conn, rng, workdir)     # primes the start state
     items, desc = cimcanon.repo_items(conn)
     h.desc.update(desc)
     h.events.append(dict(op="Init", ok=True, after=items))
     h.info.append(dict(label="init"))
-    gen = atomicops.Gen(conn, rng, workdir)
     for _ in range(nops):
         scen = gen.scenarios()
         fams = sorted(set(x[0] for x in scen))
@@ -66,7 +66,16 @@ def run(ctx):
                        "write-through batches without rollback"),
                       ("MockAtomicImplLegacyNs.cfg",
                        "CIM_Namespace CreateInstance adds namespace before "
-                       "key check")):
+                       "key check"),
+                      ("MockAtomicImplLegacyMultiNs.cfg",
+                       "multi-namespace create checks each namespace only "
+                       "right before writing it"),
+                      ("MockAtomicImplLegacyIo.cfg",
+                       "compile rolls back on MOF errors only, not on the "
+                       "I/O error of a missing include"),
+                      ("MockAtomicImplLegacySchemaList.cfg",
+                       "compile_schema_classes without a snapshot around "
+                       "the list of schema pragma files")):
         r = ctx.tlc("MockAtomicImpl", cfg, must_pass=False, count=False,
                     label="regression config: " + what)
         if r.violated != "Atomic":
@@ -126,7 +135,7 @@ def run(ctx):
         "types read through conn.cimrepository's public store API, compared "
         "as sets of order/case-insensitive canonical digests",
         "any exception type counts as 'the call raised'",
-        "compile_schema_classes is not driven (needs the DMTF schema files); "
+        "compile_schema_classes is driven with small hand-made schema pragma files, not the DMTF schema; "
         "its body is compile_mof_file and shares that family's pipeline",
     ]
 
